@@ -1,7 +1,7 @@
 use std::cmp::Ordering;
 use std::fmt::Display;
 
-use rusty_bit_vec::{MIN_INTEGER, MIN_LONG};
+use rusty_bit_vec::{MAX_INTEGER, MAX_LONG, MIN_INTEGER, MIN_LONG};
 
 use crate::fit::FitToType;
 use crate::{UserDefinedTypeValue, VArray, qb_and, qb_or};
@@ -104,6 +104,24 @@ macro_rules! div {
 }
 
 // TODO implement standard operators with panics, let the linter guarantee the type compatibility
+
+/// Creates an integer variant, if the value fits the range of an integer.
+fn checked_integer(n: i32) -> Result<Variant, VariantError> {
+    if (MIN_INTEGER..=MAX_INTEGER).contains(&n) {
+        Ok(Variant::VInteger(n))
+    } else {
+        Err(VariantError::Overflow)
+    }
+}
+
+/// Creates a long variant, if the value fits the range of a long.
+fn checked_long(n: i64) -> Result<Variant, VariantError> {
+    if (MIN_LONG..=MAX_LONG).contains(&n) {
+        Ok(Variant::VLong(n))
+    } else {
+        Err(VariantError::Overflow)
+    }
+}
 
 impl Variant {
     pub fn try_cmp(&self, other: &Self) -> Result<Ordering, VariantError> {
@@ -217,12 +235,12 @@ impl Variant {
                 _ => Err(VariantError::TypeMismatch),
             },
             Self::VInteger(i_left) => match other {
-                Self::VInteger(i_right) => Ok(Self::VInteger(i_left + i_right)),
-                Self::VLong(l_right) => Ok(Self::VLong(i_left as i64 + l_right)),
+                Self::VInteger(i_right) => checked_integer(i_left + i_right),
+                Self::VLong(l_right) => checked_long(i_left as i64 + l_right),
                 _ => other.plus(self),
             },
             Self::VLong(l_left) => match other {
-                Self::VLong(l_right) => Ok(Self::VLong(l_left + l_right)),
+                Self::VLong(l_right) => checked_long(l_left + l_right),
                 _ => other.plus(self),
             },
             _ => Err(VariantError::TypeMismatch),
@@ -245,12 +263,13 @@ impl Variant {
                 _ => other.minus(self).and_then(|x| x.negate()),
             },
             Self::VInteger(i_left) => match other {
-                Self::VInteger(i_right) => Ok(Self::VInteger(i_left - i_right)),
-                Self::VLong(l_right) => Ok(Self::VLong(i_left as i64 - l_right)),
+                Self::VInteger(i_right) => checked_integer(i_left - i_right),
+                Self::VLong(l_right) => checked_long(i_left as i64 - l_right),
                 _ => other.minus(self).and_then(|x| x.negate()),
             },
             Self::VLong(l_left) => match other {
-                Self::VLong(l_right) => Ok(Self::VLong(l_left - l_right)),
+                Self::VLong(l_right) => checked_long(l_left - l_right),
+                Self::VInteger(i_right) => checked_long(l_left - i_right as i64),
                 _ => other.minus(self).and_then(|x| x.negate()),
             },
             _ => Err(VariantError::TypeMismatch),
@@ -273,12 +292,12 @@ impl Variant {
                 _ => other.multiply(self),
             },
             Self::VInteger(i_left) => match other {
-                Self::VInteger(i_right) => Ok(Self::VInteger(i_left * i_right)),
-                Self::VLong(l_right) => Ok(Self::VLong(i_left as i64 * l_right)),
+                Self::VInteger(i_right) => checked_integer(i_left * i_right),
+                Self::VLong(l_right) => checked_long(i_left as i64 * l_right),
                 _ => other.multiply(self),
             },
             Self::VLong(l_left) => match other {
-                Self::VLong(l_right) => Ok(Self::VLong(l_left * l_right)),
+                Self::VLong(l_right) => checked_long(l_left * l_right),
                 _ => other.multiply(self),
             },
             _ => Err(VariantError::TypeMismatch),
